@@ -244,6 +244,11 @@ func (s *Syncer[H]) findTailHeight(ctx context.Context, oldTail, head H) (uint64
 		// estimate with tail for higher accuracy
 		headersToStore := uint64(tailTimeDiff / s.Params.blockTime) //nolint:gosec
 		estimatedTailHeight = oldTail.Height() + headersToStore
+		if estimatedTailHeight > head.Height() {
+			// blocks are produced slower than blockTime: the estimate overshoots the chain
+			// and there is no such header to become the tail, so there is nothing to prune by it
+			return oldTail.Height(), nil
+		}
 	}
 
 	log.Debugw(
